@@ -172,7 +172,11 @@ def run_one(rng, a, o, idx_map, mode, ctx, st):
             _check(b, pred, ctx, what, a, o, idx_map, st)
         elif mode == "shared":
             ntab = {k: len(getattr(b, "%s_type_coeffs" % k)) for k in atomsgen.KNAMES}
-            b.extend(o, offsets=(0, 0, 0, 0, 0), structure_index_map=dict(idx_map))
+            if len(a) % 2:
+                b.extend(o, (0, 0, 0, 0, 0), dict(idx_map))                      # by position, documented order
+                st.count("extensions_with_positional_arguments")
+            else:
+                b.extend(o, offsets=(0, 0, 0, 0, 0), structure_index_map=dict(idx_map))
             pred = AM.extend(ma, mo, idmap, retag=None)
             _check(b, pred, ctx, what, a, o, idx_map, st)
             for k in atomsgen.KNAMES:
@@ -182,7 +186,11 @@ def run_one(rng, a, o, idx_map, mode, ctx, st):
             offs = b.extend_types(o)
             o1 = clone(o)
             o1.charges = np.array([atomsgen.uid(3000.0, i) for i in range(len(o))])
-            b.extend(o, offsets=offs, structure_index_map=dict(idx_map))
+            if len(a) % 2:
+                b.extend(o, offs, dict(idx_map))                                 # by position
+                st.count("extensions_with_positional_arguments")
+            else:
+                b.extend(o, offsets=offs, structure_index_map=dict(idx_map))
             pred = AM.extend(ma, mo, idmap, retag=_retag)
             ok = _check(b, pred, ctx, what + " first", a, o, idx_map, st)
             # second extension with the same fragment (new ids), same offsets, no identity map
